@@ -1,10 +1,25 @@
 #!/bin/bash
 # setup_cmd: build the Lean library (models, specs, lemmas, property theorems) and the driver, offline.
-set -e
-cd "$(dirname "$0")/lean"
+cd "$(dirname "$0")/lean" || exit 1
 {
   find TE -name '*.lean' ! -path 'TE/Audit/*' ! -path 'TE/Driver/*' | sort | sed 's/\.lean$//; s|/|.|g; s/^/import /'
 } > TE.lean
-lake build TE tedriver 2>&1 | tail -5
-test -x .lake/build/bin/tedriver
+# regenerate the translator outputs from /repo's working tree first (they are imported by Props)
+( cd .. && /venv/bin/python -c "
+import sys; sys.path.insert(0,'.')
+from harness.translators import states, effects
+states.generate(); effects.generate()
+for m in ('dtypes','shapes','defaults'):
+    try:
+        __import__('harness.translators.'+m, fromlist=['generate']).generate()
+    except ImportError:
+        pass
+" >/dev/null 2>&1 )
+lake build tedriver 2>&1 | tail -3
+for f in TE/Props/C*.lean; do
+  m=$(echo "$f" | sed 's/\.lean$//; s|/|.|g')
+  lake build "$m" 2>&1 | tail -1
+done
+lake build TE 2>&1 | tail -2
+test -x .lake/build/bin/tedriver || { echo "setup FAILED: driver missing"; exit 1; }
 echo "setup ok"
